@@ -5,6 +5,7 @@ import (
 	"strings"
 
 	"github.com/hashicorp/hcl-lang/decoder"
+	"github.com/hashicorp/hcl-lang/lang"
 	"github.com/hashicorp/hcl-lang/reference"
 	"github.com/hashicorp/hcl/v2"
 
@@ -39,14 +40,17 @@ func originAddr(o reference.Origin) string {
 func (o *C11) Check(x *h.Exec, ev *h.Event) {
 	c := ev.Check
 	salt := uint64(0)
-	pathIdx := func(dir string) int {
+	// a path is a directory *and* a language id: one directory may be served
+	// under several ids (a module and its variable-definition files)
+	pathIdx := func(lp lang.Path) int {
 		for i, p := range x.S.Paths {
-			if p.Path.Path == dir {
+			if p.Path.Equals(lp) {
 				return i
 			}
 		}
 		return -1
 	}
+	pkey := func(lp lang.Path) string { return lp.Path + "\x00" + lp.LanguageID }
 	for pi, p := range x.S.Paths {
 		if x.S.Faults.ReaderError[pi] || x.S.Faults.PathVanish[pi] {
 			continue
@@ -92,21 +96,26 @@ func (o *C11) Check(x *h.Exec, ev *h.Event) {
 			// stem from any of them
 			allowedPaths := map[string]bool{}
 			type direct struct {
-				path string
+				path lang.Path
 				rng  hcl.Range
 			}
 			var directs []direct
 			for _, other := range origins {
+				if d, ok := other.(reference.DirectOrigin); ok && other.OriginRange() != rng && d.Range.Filename == rng.Filename && d.Range.Start.Byte <= off && off < d.Range.End.Byte {
+					// a direct origin around the position (a whole body pointing at a
+					// range of another path): passed through without reading that path
+					directs = append(directs, direct{d.TargetPath, d.TargetRange})
+				}
 				if other.OriginRange() != rng {
 					continue
 				}
 				switch v := other.(type) {
 				case reference.LocalOrigin:
-					allowedPaths[p.Path.Path] = true
+					allowedPaths[pkey(p.Path)] = true
 				case reference.PathOrigin:
-					allowedPaths[v.TargetPath.Path] = true
+					allowedPaths[pkey(v.TargetPath)] = true
 				case reference.DirectOrigin:
-					directs = append(directs, direct{v.TargetPath.Path, v.TargetRange})
+					directs = append(directs, direct{v.TargetPath, v.TargetRange})
 				}
 			}
 			for ti, t := range targets {
@@ -115,16 +124,22 @@ func (o *C11) Check(x *h.Exec, ev *h.Event) {
 				}
 				isDirect := false
 				for _, d := range directs {
-					if t.OriginRange == rng && t.Path.Path == d.path && t.Range == d.rng && t.DefRangePtr == nil {
+					if t.Path.Equals(d.path) && t.Range == d.rng && t.DefRangePtr == nil {
 						isDirect = true
 					}
 				}
 				if isDirect {
 					continue
 				}
+				// a declaration of a path that cannot be read right now cannot have
+				// been looked up there
+				if ti2 := pathIdx(t.Path); ti2 >= 0 && ti2 != pi && (x.S.Faults.ReaderError[ti2] || x.S.Faults.PathVanish[ti2]) {
+					x.Report("resolved-in-unreadable-path", "goto_def", "", fmt.Sprintf("origin %s at %v resolved to %v of path %s although that path cannot be read (the declaration reported is not one of that path)", addr, rng, t.Range, t.Path.Path), &q)
+					return
+				}
 				// (iv) origins resolve in the path they point into only
 				if t.OriginRange == rng {
-					if !allowedPaths[t.Path.Path] {
+					if !allowedPaths[pkey(t.Path)] {
 						x.Report("path-origin-wrong-path", "goto_def", "", fmt.Sprintf("origin %s at %v resolved to a declaration of %s, which none of the origins at that range points into", addr, rng, t.Path.Path), &q)
 						return
 					}
@@ -136,7 +151,10 @@ func (o *C11) Check(x *h.Exec, ev *h.Event) {
 					continue
 				}
 				// (ii) block-local names
-				if (root == "count" || root == "each" || root == "self") && t.OriginRange == rng && t.Path.Equals(p.Path) {
+				// (a reference written where the constraint declares an address makes
+				// "each.value" an absolute address of its own: that is not the
+				// block-local name)
+				if (root == "count" || root == "each" || root == "self") && t.OriginRange == rng && t.Path.Equals(p.Path) && !declaredAbsolutely(p.Ctx().ReferenceTargets, root, t.Range, 0) {
 					x.Cov.Probe("block_local_resolved")
 					if t.Range.Filename != rng.Filename {
 						x.Report("block-local-leak", "goto_def", root, fmt.Sprintf("%s at %v resolved to a declaration in another file: %v", addr, rng, t.Range), &q)
@@ -160,7 +178,7 @@ func (o *C11) Check(x *h.Exec, ev *h.Event) {
 				if t.DefRangePtr == nil {
 					continue
 				}
-				tp := pathIdx(t.Path.Path)
+				tp := pathIdx(t.Path)
 				if tp < 0 || x.S.Faults.ReaderError[tp] || x.S.Faults.PathVanish[tp] || x.S.Faults.Unlisted[pi] {
 					continue
 				}
@@ -190,6 +208,80 @@ func (o *C11) Check(x *h.Exec, ev *h.Event) {
 					}
 				}
 				x.Cov.Probe("inverse_pairs_checked")
+				if tp != pi && x.S.Paths[tp].Path.Path == p.Path.Path {
+					x.Cov.Probe("inverse_pairs_between_languages_of_one_directory")
+				}
+				// find-references reports origins that exist: under the path it names,
+				// the stored origin set holds one with that range
+				for _, b := range back {
+					bi := pathIdx(b.Path)
+					if bi < 0 {
+						x.Report("phantom-origin", "find_refs", "unknown-path", fmt.Sprintf("find-references at %s:%v (byte %d) reports an origin in %s (%s), which is not a path of the workspace", t.Path.Path, def, dpos, b.Path.Path, b.Path.LanguageID), &q2)
+						return
+					}
+					exists := false
+					for _, so := range x.S.Paths[bi].Ctx().ReferenceOrigins {
+						if so.OriginRange() == b.Range {
+							exists = true
+							break
+						}
+					}
+					if !exists {
+						x.Report("phantom-origin", "find_refs", "", fmt.Sprintf("find-references at %s:%v (byte %d) reports an origin at %v of path %s (%s); no origin with that range is stored for that path", t.Path.Path, def, dpos, b.Range, b.Path.Path, b.Path.LanguageID), &q2)
+						return
+					}
+				}
+				// (i') the converse: an origin find-references reports for this
+				// declaration must, asked for its definition, report this declaration
+				for bi2, b := range back {
+					if bi2 >= 3 {
+						break
+					}
+					bp := pathIdx(b.Path)
+					if bp < 0 || x.S.Faults.ReaderError[bp] || x.S.Faults.PathVanish[bp] {
+						continue
+					}
+					bf := x.S.Paths[bp].File(b.Range.Filename)
+					if bf == nil || b.Range.Start.Byte > len(bf.Text) || !x.S.Quiescent() {
+						continue
+					}
+					salt++
+					q3 := h.Query{Kind: "goto_def", Path: bp, File: b.Range.Filename, Off: b.Range.Start.Byte, Order: orderFor(c, salt)}
+					r3 := x.Run(q3)
+					fwd, ok := r3.Val.(decoder.ReferenceTargets)
+					if !ok || r3.Panic != nil {
+						continue
+					}
+					x.Cov.Probe("converse_pairs_checked")
+					// the declarations asked about: the innermost stored targets at the
+					// position, with everything nested in them (find-references on a
+					// block covers references to its parts)
+					asked := map[hcl.Range]bool{}
+					inner, _ := x.S.Paths[tp].Ctx().ReferenceTargets.InnermostAtPos(def.Filename, h.PosAt(tf.Text, dpos))
+					var addAll func(ts reference.Targets, depth int)
+					addAll = func(ts reference.Targets, depth int) {
+						for _, it := range ts {
+							if it.RangePtr != nil {
+								asked[*it.RangePtr] = true
+							}
+							if depth < 12 {
+								addAll(it.NestedTargets, depth+1)
+							}
+						}
+					}
+					addAll(inner, 0)
+					hit := false
+					for _, ft := range fwd {
+						if ft != nil && ft.Path.Equals(t.Path) && asked[ft.Range] {
+							hit = true
+							break
+						}
+					}
+					if !hit {
+						x.Report("not-inverse", "goto_def", "converse", fmt.Sprintf("find-references at the declaration %s:%v (byte %d) reports the origin %s:%v, but go-to-definition asked at that origin returns %d declaration(s) without it", t.Path.Path, t.Range, dpos, b.Path.Path, b.Range, len(fwd)), &q3)
+						return
+					}
+				}
 				found := false
 				for _, b := range back {
 					if b.Path.Equals(p.Path) && b.Range == t.OriginRange {
@@ -204,4 +296,23 @@ func (o *C11) Check(x *h.Exec, ev *h.Event) {
 			}
 		}
 	}
+}
+
+// declaredAbsolutely: some stored target with that range has an absolute
+// address rooted at the given name.
+func declaredAbsolutely(ts reference.Targets, root string, rng hcl.Range, depth int) bool {
+	if depth > 12 {
+		return false
+	}
+	for _, t := range ts {
+		if t.RangePtr != nil && *t.RangePtr == rng && len(t.Addr) > 0 {
+			if rs, ok := t.Addr[0].(lang.RootStep); ok && rs.Name == root {
+				return true
+			}
+		}
+		if declaredAbsolutely(t.NestedTargets, root, rng, depth+1) {
+			return true
+		}
+	}
+	return false
 }
